@@ -880,6 +880,17 @@ def c07c(chk):
     if ws is not None:
         for b, t in an.calls(ws, TEXT + "format_spectrum"):
             vsep = an.const_str_of(ws, t["args"][1])
+        if vsep is None and prog.fn(TEXT + "format_spectrum") is ws:
+            # the formatter was merged into write_spectrum (or replaced by a helper that canon.py inlined): the separator is the string
+            # constant handed to it, now an assignment to the inlined parameter
+            cands = set()
+            for b_ in ws.nodes():
+                for st_ in ws.stmts(b_):
+                    if st_["k"] == "assign" and st_.get("inlined") and st_["rv"]["k"] == "use":
+                        v_ = an.const_str_of(ws, st_["rv"]["op"])
+                        if isinstance(v_, str):
+                            cands.add(v_)
+            vsep = next(iter(cands)) if len(cands) == 1 else None
     ps = chk.fn(TEXT + "parse_scs")
     splits = [callee_name(t["callee"]) for b, t in ps.calls()] if ps is not None else []
     ok = vsep is not None and len(vsep) >= 1 and all(c in " \t\n\r\x0c" for c in vsep) and "core::str::<impl str>::split_ascii_whitespace" in splits
@@ -899,8 +910,31 @@ def c07c(chk):
     ok = False
     if fsn is not None:
         fcs = an.format_calls(fsn) + [x for c in prog.closures_of(fsn.path) for x in an.format_calls(c)]
-        ok = len(fcs) == 2 and all(len(phs) == 1 and phs[0]["precision"] is not None and phs[0]["precision"][1] for b, p, phs, t in fcs) and all(p == ["", ""] for b, p, phs, t in fcs)
+        if prog.fn(TEXT + "write_spectrum") is fsn:
+            # merged into write_spectrum: the value sites are the formats that take a precision (the line itself is `{}` + newline)
+            fcs = [x for x in fcs if x[2] and x[2][0]["precision"] is not None]
+        shape_ok = all(len(phs) == 1 and phs[0]["precision"] is not None and phs[0]["precision"][1] for b, p, phs, t in fcs) and all(p == ["", ""] for b, p, phs, t in fcs)
+        ok = len(fcs) == 2 and shape_ok
+        if len(fcs) == 1 and shape_ok:
+            # one site for all values: a loop over the whole slice that formats its element on every turn (the separator goes in between)
+            ok = _single_format_site_covers_all(prog, fsn, fcs[0][0])
     chk.ob("C07.c", "text-values/printed-with-requested-precision", ok, fsn.loc() if fsn else "", "every value is printed as `{x:.precision$}` with nothing around it (first and following values alike)")
+
+
+def _single_format_site_covers_all(prog, f, fmt_bb):
+    """the block fmt_bb lies in a `for` loop of f over the whole value slice (iter / enumerate only), is passed on every turn and no turn is skipped"""
+    import iters as IT
+    for it in IT.iterations(prog, f):
+        if it.kind != "loop" or it.parent is not f or fmt_bb not in it.blocks:
+            continue
+        names = [n for n in IT.chain_names(it.chain()) if n not in ("as_slice", "inner")]
+        src = it.chain()[-1][1]
+        whole = sorted(names) in (["iter"], ["enumerate", "iter"]) and src is not None and src[0] == 1
+        # every path from the body's entry back to the loop header passes the format call
+        back = f.reachable_from(it.some_t, avoid={fmt_bb, it.bb}) if it.some_t is not None else set()
+        bypass = any(it.bb in f.succ.get(b, []) for b in back | {it.some_t}) if it.some_t != fmt_bb else False
+        return whole and not it.early_exits() and not bypass
+    return False
 
 
 def c07f(chk):
@@ -920,18 +954,22 @@ def c07f(chk):
                     sl, info = g.slice_locals(t["args"][0], through_calls=False)
                     if info["binops"] or info["calls"]:
                         bad.append(g.loc(b))
-                    # root: parameter 3 of format_spectrum (or the closure's capture of it)
+                    # root: parameter 3 of format_spectrum (or the closure's capture of it); when the formatter was merged into
+                    # write_spectrum, that function's own precision parameter (3 as well: writer, spectrum, precision)
                     if g is fs:
-                        if 3 not in sl:
+                        if 3 not in sl and not (fs is ws and any(an.origin_local(fs, x) == 3 for x in sl)):
                             bad.append(g.loc(b) + " (not the precision parameter)")
                     else:
                         caps = an.closure_captures(fs, g.path) or []
-                        if not any(c is not None and c[0] == 3 for c in caps):
+                        if not any(c is not None and (c[0] == 3 or (fs is ws and an.origin_local(fs, c[0]) == 3)) for c in caps):
                             bad.append(g.loc(b) + " (closure does not capture the precision parameter)")
-        chk.ob("C07.f", "format_spectrum/precision-argument-is-the-parameter", n == 2 and not bad, fs.loc(), "`{x:.precision$}` takes its precision from the function's parameter, unmodified, at both sites (%d sites, problems %s)" % (n, bad))
+        chk.ob("C07.f", "format_spectrum/precision-argument-is-the-parameter", n in (1, 2) and not bad, fs.loc(), "`{x:.precision$}` takes its precision from the function's parameter, unmodified, at both sites (%d sites, problems %s)" % (n, bad))
     if ws is not None:
         cs = an.calls(ws, TEXT + "format_spectrum")
         ok = len(cs) == 1 and op_local(cs[0][1]["args"][2]) is not None and ws.copy_root(op_local(cs[0][1]["args"][2])) == 3 and not [rv for _, _, _, rv, _ in ws.assigns() if rv["k"] == "binop"]
+        if not cs and fs is ws:
+            # merged: there is no call to forward to; the rule above already traced the format argument to this function's parameter
+            ok = not [rv for _, _, _, rv, _ in ws.assigns() if rv["k"] == "binop" and rv["op"] not in ("Eq", "Ne", "Lt", "Le", "Gt", "Ge")]
         others = [callee_name(t["callee"]) for b, t in ws.calls() if "min" in callee_name(t["callee"]).split("::")[-1] or "clamp" in callee_name(t["callee"]) or "max" == callee_name(t["callee"]).split("::")[-1]]
         chk.ob("C07.f", "write_spectrum/precision-forwarded", ok and not others, ws.loc(), "write_spectrum forwards its precision parameter to format_spectrum unmodified (clamping calls: %s)" % others)
     if bw is not None:
